@@ -419,6 +419,8 @@ func c11Args(p *Program, r *Report, m *vmModel, sums *typeSummaries, va *evalAna
 
 	// direct calls of concrete VM function signatures pass the evaluated arguments in order
 	c11Positional(p, r, m)
+	c11DirectSignatures(p, r, m)
+	c11SlotsFilled(p, r, m)
 }
 
 // c11IsElementOf: the appended value is (a conversion or boxing of) x.Index(i).
@@ -1632,4 +1634,263 @@ func c11Consumers(m *vmModel, ref ssa.Instruction, al *ssa.Alloc, nt *types.Name
 			}
 		}
 	}
+}
+
+// c11DirectSignatures (R2): the concrete VM-function signatures form one family in three places: the function values funcExpr
+// creates, the signatures callVMFunctionDirect recognises, and the calls it makes. The sets of arities agree, the arity limit of
+// the creator equals the largest arity, and every function variable that is called is also assigned.
+func c11DirectSignatures(p *Program, r *Report, m *vmModel) {
+	isVMSig := func(sg *types.Signature) (int, bool) {
+		if sg == nil || sg.Params().Len() < 1 || sg.Results().Len() != 2 || !isReflectValue(sg.Results().At(0).Type()) || !isReflectValue(sg.Results().At(1).Type()) {
+			return 0, false
+		}
+		if sg.Params().At(0).Type().String() != "context.Context" || sg.Variadic() {
+			return 0, false
+		}
+		for i := 1; i < sg.Params().Len(); i++ {
+			if !isReflectValue(sg.Params().At(i).Type()) {
+				return 0, false
+			}
+		}
+		return sg.Params().Len() - 1, true
+	}
+	created := map[int]bool{}
+	recognised := map[int]bool{}
+	called := map[int]bool{}
+	var creator, caller *ssa.Function
+	limit := int64(-1)
+	for _, fn := range m.fns {
+		for _, b := range fn.Blocks {
+			for _, in := range b.Instrs {
+				switch x := in.(type) {
+				case *ssa.Call:
+					// reflect.ValueOf(func literal with a concrete VM signature)
+					if o := calleeObj(x); o != nil && isFuncNamed(o, "reflect", "", "ValueOf") {
+						if mi, ok := x.Call.Args[0].(*ssa.MakeInterface); ok {
+							if sg, ok := mi.X.Type().Underlying().(*types.Signature); ok {
+								if n, ok := isVMSig(sg); ok {
+									created[n] = true
+									creator = fn
+								}
+							}
+						}
+					}
+					if staticCallee(x) == nil && !x.Call.IsInvoke() {
+						if sg, ok := x.Call.Value.Type().Underlying().(*types.Signature); ok {
+							if n, ok := isVMSig(sg); ok && fn.Parent() == nil {
+								called[n] = true
+							}
+						}
+					}
+				case *ssa.TypeAssert:
+					if sg, ok := x.AssertedType.Underlying().(*types.Signature); ok {
+						if n, ok := isVMSig(sg); ok {
+							recognised[n] = true
+							caller = fn
+						}
+					}
+				}
+			}
+		}
+	}
+	if creator == nil || caller == nil {
+		r.Undecided("C11.R2", "direct signatures", "vm", "the creator or the direct caller of concrete VM-function signatures was not found")
+		return
+	}
+	// the creator's arity limit: `len(params) <= K`
+	for _, b := range creator.Blocks {
+		for _, in := range b.Instrs {
+			if bo, ok := in.(*ssa.BinOp); ok && bo.Op == token.LEQ {
+				if c, ok := bo.Y.(*ssa.Const); ok && c.Value != nil {
+					if lc, ok := bo.X.(*ssa.Call); ok {
+						if bi, ok := lc.Call.Value.(*ssa.Builtin); ok && bi.Name() == "len" {
+							limit = c.Int64()
+						}
+					}
+				}
+			}
+		}
+	}
+	set := func(m map[int]bool) string {
+		var ks []int
+		for k := range m {
+			ks = append(ks, k)
+		}
+		sort.Ints(ks)
+		return fmt.Sprint(ks)
+	}
+	max := -1
+	for k := range created {
+		if k > max {
+			max = k
+		}
+	}
+	dense := true
+	for k := 0; k <= max; k++ {
+		if !created[k] {
+			dense = false
+		}
+	}
+	bad := ""
+	switch {
+	case !dense:
+		bad = "the creator builds function values for arities " + set(created) + ": a function with a missing arity keeps whatever value was computed before"
+	case limit >= 0 && int64(max) != limit:
+		bad = fmt.Sprintf("the creator's arity limit is %d but its largest concrete signature has %d parameters", limit, max)
+	case set(created) != set(recognised):
+		bad = "created arities " + set(created) + " but recognised arities " + set(recognised)
+	}
+	r.Check(bad == "", "C11.R2", funcName(creator)+"|concrete signatures agree with "+caller.Name(), p.Pos(creator.Pos()), "arities "+set(created)+" created, recognised and limited alike", bad)
+	// every function variable of the direct caller that is called is assigned
+	for _, b := range caller.Blocks {
+		for _, in := range b.Instrs {
+			al, ok := in.(*ssa.Alloc)
+			if !ok {
+				continue
+			}
+			sg, ok := derefType(al.Type()).Underlying().(*types.Signature)
+			if !ok {
+				continue
+			}
+			if _, ok := isVMSig(sg); !ok {
+				continue
+			}
+			assigned := false
+			for _, ref := range *al.Referrers() {
+				if st, ok := ref.(*ssa.Store); ok && st.Addr == ssa.Value(al) && !isNilConst(st.Val) {
+					assigned = true
+				}
+			}
+			r.Check(assigned, "C11.R2", fmt.Sprintf("%s|function variable %s is assigned", caller.Name(), al.Comment), p.Pos(al.Pos()), "assigned where its signature is recognised", "the variable is tested and called but never assigned: functions of that signature are recognised and then not called")
+		}
+	}
+}
+
+// c11SlotsFilled (R2): an argument list made with make([]reflect.Value, n) and handed to a VM function has every slot assigned:
+// a counting loop fills 0..n-2 and slot n-1 is stored on every path from the `n > 0` test to the call.
+func c11SlotsFilled(p *Program, r *Report, m *vmModel) {
+	n := 0
+	for _, fn := range m.fns {
+		for _, b := range fn.Blocks {
+			for _, in := range b.Instrs {
+				mk, ok := in.(*ssa.MakeSlice)
+				if !ok || mk.Type().String() != "[]reflect.Value" {
+					continue
+				}
+				if c, isC := mk.Len.(*ssa.Const); isC && c.Int64() == 0 {
+					continue // grown by append
+				}
+				if mk.Len != mk.Cap {
+					continue
+				}
+				// slots assigned by index
+				var lastStores []*ssa.Store
+				loopFill := false
+				for _, ref := range *mk.Referrers() {
+					ia, ok := ref.(*ssa.IndexAddr)
+					if !ok {
+						continue
+					}
+					for _, r2 := range *ia.Referrers() {
+						st, ok := r2.(*ssa.Store)
+						if !ok || st.Addr != ssa.Value(ia) {
+							continue
+						}
+						if bo, ok := ia.Index.(*ssa.BinOp); ok && bo.Op == token.SUB && bo.X == mk.Len {
+							if c, ok := bo.Y.(*ssa.Const); ok && c.Int64() == 1 {
+								lastStores = append(lastStores, st)
+							}
+						} else if bo, ok := ia.Index.(*ssa.BinOp); ok && bo.Op == token.SUB && sameLenCall(bo.X, mk.Len) {
+							if c, ok := bo.Y.(*ssa.Const); ok && c.Int64() == 1 {
+								lastStores = append(lastStores, st)
+							}
+						} else if ph, ok := ia.Index.(*ssa.Phi); ok && canonicalInduction(ph) {
+							loopFill = true
+						}
+					}
+				}
+				if !loopFill && len(lastStores) == 0 {
+					continue // filled some other way (copy, range with index)
+				}
+				// the consumer: a call that takes the slice
+				var use *ssa.BasicBlock
+				for _, ref := range *mk.Referrers() {
+					if c, ok := ref.(ssa.CallInstruction); ok {
+						use = c.Block()
+					}
+				}
+				if use == nil {
+					continue
+				}
+				n++
+				stored := map[*ssa.BasicBlock]bool{}
+				for _, st := range lastStores {
+					stored[st.Block()] = true
+				}
+				// from the `n > 0` true edge, every path to the use passes a store of slot n-1
+				bad := ""
+				if !loopFill {
+					bad = "no counting loop fills the leading slots"
+				}
+				found := false
+				for _, b2 := range fn.Blocks {
+					iff, ok := b2.Instrs[len(b2.Instrs)-1].(*ssa.If)
+					if !ok {
+						continue
+					}
+					bo, ok := iff.Cond.(*ssa.BinOp)
+					if !ok || bo.Op != token.GTR || !isZeroConst(bo.Y) || !(bo.X == mk.Len || sameLenCall(bo.X, mk.Len)) {
+						continue
+					}
+					found = true
+					start := b2.Succs[0]
+					if !stored[start] {
+						if reachable(start, func(x *ssa.BasicBlock) bool { return stored[x] })[use] {
+							bad = "a path from the `n > 0` test reaches the call without storing slot n-1"
+						}
+					}
+				}
+				if !found && bad == "" {
+					bad = "the last slot is not filled under an `n > 0` test"
+				}
+				r.Check(bad == "", "C11.R2", funcName(fn)+"|every argument slot is filled", p.Pos(mk.Pos()), "slots 0..n-2 by a counting loop, slot n-1 on every path", "the argument list handed to the VM function has an unassigned slot ("+bad+"): the last parameter arrives as an invalid value")
+			}
+		}
+	}
+	r.Note("C11.R2 slot-filled argument lists", n)
+}
+
+// sameLenCall: a and b are len() of the same value.
+func sameLenCall(a, b ssa.Value) bool {
+	ca, ok1 := a.(*ssa.Call)
+	cb, ok2 := b.(*ssa.Call)
+	if !ok1 || !ok2 {
+		return false
+	}
+	ba, ok1 := ca.Call.Value.(*ssa.Builtin)
+	bb, ok2 := cb.Call.Value.(*ssa.Builtin)
+	if !ok1 || !ok2 || ba.Name() != "len" || bb.Name() != "len" {
+		return false
+	}
+	x, y := ca.Call.Args[0], cb.Call.Args[0]
+	if x == y {
+		return true
+	}
+	ux, ok1 := x.(*ssa.UnOp)
+	uy, ok2 := y.(*ssa.UnOp)
+	if ok1 && ok2 {
+		fx, ok1 := ux.X.(*ssa.FieldAddr)
+		fy, ok2 := uy.X.(*ssa.FieldAddr)
+		return ok1 && ok2 && fx.Field == fy.Field && sameBaseLoad(fx.X, fy.X)
+	}
+	return false
+}
+
+func sameBaseLoad(a, b ssa.Value) bool {
+	if a == b {
+		return true
+	}
+	ua, ok1 := a.(*ssa.UnOp)
+	ub, ok2 := b.(*ssa.UnOp)
+	return ok1 && ok2 && ua.X == ub.X
 }
